@@ -46,6 +46,7 @@ type crashRun struct {
 	nCont       int
 	contEvery   int  // run a continuation on every n-th successfully recovered image (0 = never)
 	contMerge   bool // C07: continuation = deletes + a new Merge
+	nContRun    int
 	enabled     bool
 	// options
 	powerLoss   bool
@@ -601,6 +602,24 @@ func (c *crashRun) continuation(img string, m0 *core.Model, kind string, ev mon.
 	sortKeys(keys)
 	r := c.r
 	pick := func() []byte { return keys[r.Intn(len(keys))] }
+	c.nContRun++
+	if c.nContRun%2 == 0 {
+		// the first thing done with the recovered directory is a Merge (adopted by the next
+		// restart): what the crash left behind - records of a batch without its sealing
+		// record, a cut-off tail - must not come back to life through the rewrite
+		s.Exec(core.Op{Kind: "merge"})
+		s.Exec(core.Op{Kind: "restart"})
+		if !s.Dead {
+			s.Exec(core.Op{Kind: "restart"})
+		}
+		c.res.Add("continuations_starting_with_merge", 1)
+		if report("merge-first") {
+			return
+		}
+		if s.Dead || s.DB == nil {
+			return
+		}
+	}
 	s.Exec(core.Op{Kind: "put", Key: pick(), VLen: r.Range(1, 300), VSeed: r.U64() | 1})
 	b := core.Op{Kind: "batch", Sub: []core.Op{{Kind: "put", Key: pick(), VLen: r.Range(0, 200), VSeed: r.U64() | 1}, {Kind: "del", Key: pick()}, {Kind: "put", Key: pick(), VLen: r.Range(1, 100), VSeed: r.U64() | 1}}}
 	s.Exec(b)
